@@ -202,6 +202,12 @@ func run(c *core.Ctx) int {
 	for k := 0; k < nMulti; k++ {
 		normal.addPair(Case{Multi: genMulti(mrng), Seed: mrng.U64(), Class: "multi"})
 	}
+	// concurrent phase: G goroutines grow one shared memory
+	var concP pending
+	crng := core.NewRng(c.Seed, 1415)
+	for k := 0; k < c.N(300, 4000); k++ {
+		concP.addPair(Case{Conc: genConc(crng), Seed: crng.U64(), Class: "concurrent"})
+	}
 	// fixed heavy histories that must always be present, then a PRNG sample of the candidates
 	for _, kind := range []string{"local", "imported", "shared"} {
 		for _, h := range []struct {
@@ -234,6 +240,10 @@ func run(c *core.Ctx) int {
 		res := core.RunCases(c, "case", heavyP.cases, core.ChildOpts{Batch: 1, Par: 2, TimeoutS: 600})
 		st.handle(&heavyP, res, 0, true)
 		c.Extra("phase_heavy_done_s", time.Since(c.Start).Seconds())
+		// concurrent grows of shared memories: children with 8 Ps
+		res = core.RunCases(c, "case", concP.cases, core.ChildOpts{Batch: 10, Par: 6, Procs: 8, TimeoutS: 600})
+		st.handle(&concP, res, 0, false)
+		c.Extra("phase_concurrent_done_s", time.Since(c.Start).Seconds())
 	}()
 	const chunk = 40000
 	for lo := 0; lo < len(normal.cases); lo += chunk {
@@ -267,7 +277,9 @@ func run(c *core.Ctx) int {
 			"alloc_default", "alloc_guard", "alloc_moving", "kind_local", "kind_imported", "kind_shared", "class_heavy", "class_exhaustive", "class_prng",
 			"class_multi", "multi_route_direct", "multi_route_via", "multi_route_nested", "multi_route_indirect", "multi_route_hostself", "multi_route_hostother",
 			"multi_op_grow", "multi_op_size", "multi_op_load8", "multi_op_store8", "multi_grow_ok", "multi_grow_fail", "multi_cross_instance_steps",
-			"multi_entry_has_other_memory", "multi_entry_without_memory", "multi_obs_size", "multi_obs_bytes", "multi_instances_2", "multi_instances_3"} {
+			"multi_entry_has_other_memory", "multi_entry_without_memory", "multi_obs_size", "multi_obs_bytes", "multi_instances_2", "multi_instances_3",
+			"class_concurrent", "conc_histories", "conc_op_hostgrow", "conc_op_guestgrow", "conc_op_hostsize", "conc_op_guestsize", "conc_grow_ok", "conc_grow_fail",
+			"conc_reached_max", "conc_size_observations", "conc_alloc_guard", "conc_alloc_default"} {
 			if c.Counter(e+"/"+k) == 0 {
 				missing = append(missing, e+"/"+k)
 			}
@@ -288,6 +300,7 @@ func run(c *core.Ctx) int {
 	c.Assume("MemoryDefinition.Max() may report the declared or the limit-clamped maximum; its value is unconstrained when no maximum is encoded")
 	c.Assume("on a failed Grow the returned page count is unspecified; a failed read's value is unspecified")
 	c.Assume("moving allocator is not combined with shared memories (allocator contract)")
+	c.Assume("concurrent shared-memory histories are decided by facts that hold in every linearization; the allocator used there never refuses a request within max")
 	c.Assume("multi-instance histories: limit pages and capacity-from-max are runtime-wide in wazero, so they are shared by the instances of one topology; min, max and allocator differ per instance")
 	rule := "one evaluation = one history (configuration x grow-step sequence, <=8 steps; or multi-instance topology x 4-11 routed steps) run on one engine and decided step by step against the reference model; pairs (interpreter, compiler) also compared by observation digest; non-trivial = module accepted and >=1 grow step executed; distinct = distinct (configuration, resolved step sequence with results)"
 	code := c.Finish(st.evals, int64(len(st.digests)), rule)
@@ -365,7 +378,9 @@ func (a *agg) handle(p *pending, rs []core.CaseResult, base int, isHeavy bool) {
 			}
 			c.Count(e+k, int64(n))
 		}
-		if cs.Multi == nil {
+		if cs.Conc != nil {
+			c.Count(e+"conc_alloc_"+cs.Conc.Alloc, 1)
+		} else if cs.Multi == nil {
 			c.Count(e+"alloc_"+cs.Cfg.Alloc, 1)
 			c.Count(e+"kind_"+cs.Cfg.Kind, 1)
 		} else {
@@ -380,7 +395,9 @@ func (a *agg) handle(p *pending, rs []core.CaseResult, base int, isHeavy bool) {
 			h := fnv.New64a()
 			h.Write([]byte(cs.cfgKey() + "|" + out.Summary))
 			a.digests[string(h.Sum(nil))] = true
-			if cs.Multi == nil {
+			if cs.Conc != nil {
+				c.Distinct("concurrent_shapes_run", cs.cfgKey())
+			} else if cs.Multi == nil {
 				c.Distinct("configs_run", cs.cfgKey())
 			} else {
 				c.Distinct("multi_topologies_run", cs.cfgKey())
@@ -418,6 +435,9 @@ func (a *agg) handle(p *pending, rs []core.CaseResult, base int, isHeavy bool) {
 		if len(x.Findings) > 0 || len(y.Findings) > 0 {
 			c.Count("pairs_not_compared_model_finding", 1)
 			continue
+		}
+		if p.meta[i].Conc != nil {
+			continue // schedules differ: each history is decided on its own
 		}
 		c.Count("pairs_compared", 1)
 		if x.Digest != y.Digest {
@@ -460,7 +480,9 @@ func replay(c *core.Ctx, path string) int {
 		cs := w.Witness.Case
 		cs.Engine = e
 		var res *Result
-		if cs.Multi != nil {
+		if cs.Conc != nil {
+			res = runConc(cs)
+		} else if cs.Multi != nil {
 			res = runMulti(cs, true)
 		} else {
 			res = runCase(cs, true)
